@@ -265,3 +265,18 @@ func min(a, b int) int {
 	}
 	return b
 }
+
+// WideTable is a complete 4-ary tree of n distinct cells in heap layout (row i references 4i+1..4i+4): many cells, small depth.
+func WideTable(n int) *Table {
+	t := &Table{Cells: make([]C, n), Roots: []int{0}}
+	for i := 0; i < n; i++ {
+		c := C{B: fmt.Sprintf("%024b", i), R: []int{}}
+		for j := 1; j <= 4; j++ {
+			if k := 4*i + j; k < n {
+				c.R = append(c.R, k)
+			}
+		}
+		t.Cells[i] = c
+	}
+	return t
+}
